@@ -26,7 +26,7 @@ use crate::model::*;
 type Set2 = OrSWotSet<2>;
 
 fn free_addr() -> std::net::SocketAddr {
-    std::net::TcpListener::bind("127.0.0.1:0").unwrap().local_addr().unwrap()
+    vcommon::free_addr()
 }
 
 /// A port seen free may be taken by another process a moment later.
